@@ -255,6 +255,12 @@ func (c *compiler) compile(slice bigslice.Slice, part partitioner) (tasks []*Tas
 				Deps:   []TaskDep{{task, 0, false, ""}},
 				Pragma: task.Pragma,
 				Slices: task.Slices,
+				// These tasks are the producers of the shuffle: they must
+				// partition (and combine) their output for the consumer.
+				NumPartition: part.NumPartition(),
+				Partitioner:  part.Partitioner(),
+				Combiner:     part.Combiner,
+				CombineKey:   part.CombineKey,
 			}
 		}
 		return
